@@ -48,7 +48,7 @@ theorem reportAttemptsInstall_frame (s : Bool) (w : World) :
 
 /-- A check that succeeded resets the count. -/
 theorem finishCheckOk_failures (ok : CheckOk) (w : World) : (finishCheckOk ok w).ctx.st.failures = 0 := by
-  unfold finishCheckOk
+  unfold finishCheckOk prepareOk
   simp only
   rw [(closeCheck_frame _ _).1]
   cases installSuccess ok.responses with
@@ -58,7 +58,7 @@ theorem finishCheckOk_failures (ok : CheckOk) (w : World) : (finishCheckOk ok w)
 /-- A check that failed, for whatever reason, counts one more (saturating at `u32::MAX`). -/
 theorem finishCheckErr_failures (e : CheckErr) (w : World) :
     (finishCheckErr e w).ctx.st.failures = satAdd32 w.ctx.st.failures := by
-  unfold finishCheckErr
+  unfold finishCheckErr prepareErr
   simp only
   rw [(closeCheck_frame _ _).1]
   cases talkedToOmaha e <;> simp [reportAttemptsCheck, metric, emit, setLastUpdate]
@@ -144,7 +144,7 @@ def nowPCT (w : World) : PCT := .complex ⟨w.clock.wall, w.clock.mono⟩
 
 theorem finishCheckOk_lastUpdate (ok : CheckOk) (w : World) :
     (finishCheckOk ok w).ctx.sched.lastUpdate = some (nowPCT w) := by
-  unfold finishCheckOk
+  unfold finishCheckOk prepareOk
   simp only
   rw [(closeCheck_frame _ _).1]
   cases installSuccess ok.responses with
@@ -159,7 +159,7 @@ authentication failures leave it untouched. -/
 theorem finishCheckErr_lastUpdate (e : CheckErr) (w : World) :
     (finishCheckErr e w).ctx.sched.lastUpdate =
       if talkedToOmaha e then some (nowPCT w) else w.ctx.sched.lastUpdate := by
-  unfold finishCheckErr
+  unfold finishCheckErr prepareErr
   simp only
   rw [(closeCheck_frame _ _).1]
   cases talkedToOmaha e <;> simp [reportAttemptsCheck, metric, emit, setLastUpdate, nowPCT]
